@@ -220,8 +220,8 @@ func (c *mctx) inject() {
 }
 
 var (
-	c10Keys     = []string{"a", "b", "len", "partial", "w", "A", "a.b", "contentFor:x", "_u", "Len"}
-	c10Observed = []string{"a", "b", "len", "partial", "w", "raw", "truncate", "contentFor", "zz", "A", "a.b", "contentFor:x", "_u", "Len", "xh1", "xh2"}
+	c10Keys     = []string{"a", "b", "len", "partial", "w", "A", "a.b", "contentFor:x", "_u", "Len", "_", "", "a b", "ü", "0", "nil", "true"}
+	c10Observed = []string{"a", "b", "len", "partial", "w", "raw", "truncate", "contentFor", "zz", "A", "a.b", "contentFor:x", "_u", "Len", "xh1", "xh2", "_", "", "a b", "ü", "0", "nil", "true"}
 )
 
 // swarm: each history draws its own small subsets of keys and values, so that
@@ -468,6 +468,9 @@ func c10Run(t *rapid.T) {
 			// given; plush passes string keys through unchanged
 			base = context.WithValue(base, "w", wv.real()) //nolint
 			base = context.WithValue(base, "a", wa.real()) //nolint
+			// a helper NAME bound in the wrapped context: the new root still installs the built-in locally, and
+			// local bindings come before the wrapped context
+			base = context.WithValue(base, "truncate", "wrapped value under a helper name") //nolint
 			base = context.WithValue(base, wrappedKey("b"), 99)
 			hist = append(hist, fmt.Sprintf("ctx#%d = NewContextWithContext(ctx{w:%s, a:%s})", nextID, wv, wa))
 			// NewContextWithContext builds the context (helpers injected
